@@ -144,6 +144,7 @@ def run_translator(ck):
            "Definition NS := Eval vm_compute in Z.of_nat (List.length gen_untyped_error_sites).\nPrint NS.\n"
            "Definition NG := Eval vm_compute in Z.of_nat (List.length gen_goroutines).\nPrint NG.\n"
            "Definition PP := Eval vm_compute in programs_eqb gen_parser_programs parser_programs_model.\nPrint PP.\n"
+           "Definition PV := Eval vm_compute in filter (fun v => negb (let '(_, a, b, c) := v in a && b && c)) (prog_verdicts gen_tame_panic gen_parser_programs).\nPrint PV.\n"
            "Definition PT := Eval vm_compute in gsimples_eqb gen_tame_panic tame_model && gen_tame_guarded.\nPrint PT.\n"
            "Definition PC := Eval vm_compute in consumer_eqb gen_consumer consumer_model.\nPrint PC.\n"
            "Definition HO := Eval vm_compute in handler_ok gen_on_span_cols gen_spans_fields gen_attrs_fields gen_spans_consumed gen_attrs_consumed "
@@ -188,7 +189,10 @@ def run_translator(ck):
     ck.obligation("parser goroutines of unmarshal/builder.go (Do, doParseProfile, doParseLogs, doParseSpans) are the modelled programs: "
                   "defer tamePanic; Decode; on error send+close+return; last batch; exactly one close",
                   val("PP") == "true", "gen_parser_programs differs from parser_programs_model (see coq/gen/GenGoroutinesWriter.v): a changed send/close/defer "
-                  "in a parser goroutine -- run_prog over the generated program decides whether a decoder panic/error still ends in one close")
+                  "in a parser goroutine")
+    ck.obligation("every regenerated parser goroutine, run by the model's interpreter with the regenerated tamePanic, survives and ends with exactly one "
+                  "close when the decoder returns nil, returns an error, or panics", val("PV") == "[]",
+                  "programs that break the channel protocol (function, ok on nil, ok on error, ok on panic): " + val("PV"))
     ck.obligation("tamePanic is `if err := recover(); err != nil { send the panic error; close }`", val("PT") == "true",
                   "gen_tame_panic / gen_tame_guarded differ from tame_model")
     ck.obligation("controller doParse ranges over the channel and every early return starts the drain goroutine", val("PC") == "true",
